@@ -599,3 +599,114 @@ for _order, _nm in ((4, "_local_cliquishness_4thorder"), (5, "_local_cliquishnes
                 "all(0<=degree[a] and degree[a]<=N for a in range(N))",
                 "all(0<=A[a,b] and A[a,b]<=1 for a in range(N) for b in range(N))"],
       loops=_loops, checks=("bounds", "overflow", "narrow", "divzero"))
+
+# ============================================================================ timeseries: adaptive neighbourhood, bootstrap, sampling (C07, C08)
+K("_set_adaptive_neighborhood_size", "timeseries", props=("C07", "C20"),
+  requires=["n_time>=0", "adaptive_neighborhood_size>=0", "shape(sorted_neighbors,0)==n_time", "shape(sorted_neighbors,1)==n_time",
+            "shape(order,0)==n_time", "shape(recurrence,0)==n_time", "shape(recurrence,1)==n_time",
+            "all(0<=order[a] and order[a]<n_time for a in range(n_time))",
+            "all(0<=sorted_neighbors[a,b] and sorted_neighbors[a,b]<n_time for a in range(n_time) for b in range(n_time))",
+            "all(recurrence[a,b]==recurrence[b,a] and (recurrence[a,b]==0 or recurrence[a,b]==1) for a in range(n_time) for b in range(n_time))"],
+  ensures=["all(recurrence[a,b]==recurrence[b,a] and (recurrence[a,b]==0 or recurrence[a,b]==1) for a in range(n_time) for b in range(n_time))",
+           # entries are only ever switched on
+           "all(implies(old(recurrence[a,b])==1, recurrence[a,b]==1) for a in range(n_time) for b in range(n_time))"],
+  loops={k: ["all(recurrence[a,b]==recurrence[b,a] and (recurrence[a,b]==0 or recurrence[a,b]==1) for a in range(n_time) for b in range(n_time))",
+             "all(implies(old(recurrence[a,b])==1, recurrence[a,b]==1) for a in range(n_time) for b in range(n_time))"] +
+         (["i+1<=k and k<=max(n_time,i+1)", "0<=l and l<n_time"] if k.endswith("while") else [])
+         for k in ("i", "i.j", "i.j.while")})
+
+for _m in ("manhattan", "euclidean", "supremum"):
+    K(f"_bootstrap_distance_matrix_{_m}", "timeseries", props=("C07", "C20"),
+      requires=["n_time>=1", "dim>=0", "M>=0", "shape(embedding,0)==n_time", "shape(embedding,1)==dim", "shape(distances,0)==M"],
+      checks=("bounds", "narrow", "buffer", "overflow"))
+
+K("_rejection_sampling", "timeseries", props=("C08", "C20"),
+  requires=["N>=1", "M>=0", "shape(dist,0)==N", "shape(resampled_dist,0)==N"], checks=("bounds",))
+
+K("_recurrence_plot", "timeseries", props=("C15", "C07", "C20"),
+  requires=["n_time>=0", "dimension>=0", "shape(embedding,0)==n_time", "shape(embedding,1)==dimension",
+            "shape(R,0)==n_time", "shape(R,1)==n_time", "all(R[a,b]==1 for a in range(n_time) for b in range(n_time))"],
+  ensures=["all(R[a,b]==R[b,a] and (R[a,b]==0 or R[a,b]==1) for a in range(n_time) for b in range(n_time))",
+           "all(R[a,a]==1 for a in range(n_time))",
+           "all(iff(R[a,b]==0, any(abs(embedding[a,l]-embedding[b,l])>threshold for l in range(dimension))) "
+           "for a in range(n_time) for b in range(a))"],
+  loops={"j": ["all(R[a,b]==R[b,a] and (R[a,b]==0 or R[a,b]==1) for a in range(n_time) for b in range(n_time))",
+               "all(R[a,a]==1 for a in range(n_time))", "T==n_time and D==dimension",
+               "all(iff(R[a,b]==0, any(abs(embedding[a,l]-embedding[b,l])>threshold for l in range(dimension))) for a in range(j) for b in range(a))",
+               "all(R[a,b]==1 for a in range(j,n_time) for b in range(a))"],
+         "j.k": ["all(R[a,b]==R[b,a] and (R[a,b]==0 or R[a,b]==1) for a in range(n_time) for b in range(n_time))",
+                 "all(R[a,a]==1 for a in range(n_time))", "T==n_time and D==dimension",
+                 "all(iff(R[a,b]==0, any(abs(embedding[a,l]-embedding[b,l])>threshold for l in range(dimension))) for a in range(j) for b in range(a))",
+                 "all(iff(R[j,b]==0, any(abs(embedding[j,l]-embedding[b,l])>threshold for l in range(dimension))) for b in range(k))",
+                 "all(R[j,b]==1 for b in range(k,j))", "all(R[a,b]==1 for a in range(j+1,n_time) for b in range(a))"],
+         "j.k.l": ["all(not (abs(embedding[j,q]-embedding[k,q])>threshold) for q in range(l))", "T==n_time and D==dimension",
+                   "unchanged(R)"]})
+
+# ============================================================================ timeseries: time-directed clustering (C14)
+for _nm, _out, _jr, _kr in (("_retarded_local_clustering", "retarded_clustering", "range(i)", "range(j)"),
+                            ("_advanced_local_clustering", "advanced_clustering", "range(i+1,N)", "range(i+1,j)")):
+    _jlo, _klo = ("0", "0") if "retarded" in _nm else ("i+1", "i+1")
+    K(_nm, "timeseries", props=("C14", "C20"),
+      requires=["N>=0", "shape(A,0)==N", "shape(A,1)==N", "shape(norm,0)==N", f"shape({_out},0)==N"],
+      ghost={"ck": ("int", "int", "int", "int"), "cj": ("int", "int", "int")},
+      defs=[f"all(ck(i,j,{_klo})==0 for i in range(N) for j in range(N))",
+            "all(ck(i,j,k+1)==ck(i,j,k)+ite(A[i,j]==1 and A[j,k]==1 and A[k,i]==1,1,0) for i in range(N) for j in range(N) for k in range(N))",
+            f"all(cj(i,{_jlo})==0 for i in range(N))",
+            "all(cj(i,j+1)==cj(i,j)+ck(i,j,j) for i in range(N) for j in range(N))"],
+      ensures=[f"all(implies(norm[i]!=0, {_out}[i]==real(cj(i," + ("i" if "retarded" in _nm else "N") + f"))/norm[i]) for i in range(" + ("N" if "retarded" in _nm else "N-2") + "))"],
+      loops={"i": [f"all(implies(norm[p]!=0, {_out}[p]==real(cj(p," + ("p" if "retarded" in _nm else "N") + "))/norm[p]) for p in range(i))"],
+             "i.j": ["counter==cj(i,j)"], "i.j.k": ["counter==cj(i,j)+ck(i,j,k)"]},
+      checks=("bounds", "narrow", "divzero"))
+
+# ============================================================================ funcnet kernels (C10, C20)
+K("_symmetrize_by_absmax", "funcnet", props=("C10", "C20"),
+  requires=["N>=0", "shape(similarity_matrix,0)==N", "shape(similarity_matrix,1)==N", "shape(lag_matrix,0)==N",
+            "shape(lag_matrix,1)==N", "all(-127<=lag_matrix[a,b] and lag_matrix[a,b]<=127 for a in range(N) for b in range(N))"],
+  # after the call the value matrix is symmetric, the lag matrix antisymmetric, the diagonal untouched
+  # and every lag still fits int8 (negation of -128 would not)
+  ensures=["all(similarity_matrix[a,b]==similarity_matrix[b,a] and lag_matrix[a,b]==-lag_matrix[b,a] for a in range(N) for b in range(a+1,N))", "all(similarity_matrix[a,a]==old(similarity_matrix[a,a]) and lag_matrix[a,a]==old(lag_matrix[a,a]) for a in range(N))", "all(-127<=lag_matrix[a,b] and lag_matrix[a,b]<=127 for a in range(N) for b in range(N))"],
+  loops={"i": ["all(similarity_matrix[a,b]==similarity_matrix[b,a] and lag_matrix[a,b]==-lag_matrix[b,a] for a in range(i) for b in range(a+1,N))", "all(similarity_matrix[a,a]==old(similarity_matrix[a,a]) and lag_matrix[a,a]==old(lag_matrix[a,a]) for a in range(N))", "all(-127<=lag_matrix[a,b] and lag_matrix[a,b]<=127 for a in range(N) for b in range(N))"],
+         "i.j": ["all(similarity_matrix[a,b]==similarity_matrix[b,a] and lag_matrix[a,b]==-lag_matrix[b,a] for a in range(i) for b in range(a+1,N))", "all(similarity_matrix[a,a]==old(similarity_matrix[a,a]) and lag_matrix[a,a]==old(lag_matrix[a,a]) for a in range(N))", "all(-127<=lag_matrix[a,b] and lag_matrix[a,b]<=127 for a in range(N) for b in range(N))",
+                 "all(similarity_matrix[i,b]==similarity_matrix[b,i] and lag_matrix[i,b]==-lag_matrix[b,i] for b in range(i+1,j))"]})
+
+# cross-correlation kernels: value = fold of the lagged products / corr_range, stored as float32;
+# reversed lag bookkeeping: slot tau_max - tau holds the product of array[tau,i,:] with array[tau_max,j,:]
+_CCG = {"cc": ("int", "int", "int", "int", "float")}
+_CCD = ["all(cc(i,j,tau,0)==0 for i in range(N) for j in range(N) for tau in range(tau_max+1))",
+        "all(cc(i,j,tau,k+1)==cc(i,j,tau,k)+array[tau,i,k]*array[tau_max,j,k] for i in range(N) for j in range(N) "
+        "for tau in range(tau_max+1) for k in range(corr_range))"]
+_CCR = ["N>=0", "tau_max>=0", "tau_max<=2147483646", "corr_range>=1", "shape(array,0)==tau_max+1", "shape(array,1)==N", "shape(array,2)==corr_range"]
+K("_cross_correlation_all", "funcnet", props=("C10", "C20"), requires=_CCR, ghost=_CCG, defs=_CCD,
+  ensures=["shape(result,0)==N and shape(result,1)==N and shape(result,2)==tau_max+1",
+           "all(result[i,j,tau_max-tau]==cc(i,j,tau,corr_range)/corr_range for i in range(N) for j in range(N) for tau in range(tau_max+1))"],
+  loops={"i": ["all(lagfuncs[a,j,tau_max-tau]==cc(a,j,tau,corr_range)/corr_range for a in range(i) for j in range(N) for tau in range(tau_max+1))"],
+         "i.j": ["all(lagfuncs[a,b,tau_max-tau]==cc(a,b,tau,corr_range)/corr_range for a in range(i) for b in range(N) for tau in range(tau_max+1))",
+                 "all(lagfuncs[i,b,tau_max-tau]==cc(i,b,tau,corr_range)/corr_range for b in range(j) for tau in range(tau_max+1))"],
+         "i.j.tau": ["all(lagfuncs[a,b,tau_max-t]==cc(a,b,t,corr_range)/corr_range for a in range(i) for b in range(N) for t in range(tau_max+1))",
+                     "all(lagfuncs[i,b,tau_max-t]==cc(i,b,t,corr_range)/corr_range for b in range(j) for t in range(tau_max+1))",
+                     "all(lagfuncs[i,j,tau_max-t]==cc(i,j,t,corr_range)/corr_range for t in range(tau))"],
+         "i.j.tau.k": ["crossij==cc(i,j,tau,k)"]},
+  checks=("bounds", "overflow", "divzero"))
+
+K("_cross_correlation_max", "funcnet", props=("C10", "C20"),
+  requires=_CCR + ["tau_max<=127"], ghost=_CCG, defs=_CCD,
+  # value at a lag index of maximal magnitude, lag = tau_max - argmax, which fits int8 because tau_max <= 127
+  ensures=["shape(result[0],0)==N and shape(result[1],0)==N",
+           "all(0<=result[1][i,j] and result[1][i,j]<=tau_max for i in range(N) for j in range(N))"],
+  loops={"i": ["all(0<=lag_matrix[a,b] and lag_matrix[a,b]<=tau_max for a in range(N) for b in range(N))"],
+         "i.j": ["all(0<=lag_matrix[a,b] and lag_matrix[a,b]<=tau_max for a in range(N) for b in range(N))"],
+         "i.j.tau": ["0<=argmax and argmax<=tau_max",
+                     "all(abs(cc(i,j,u,corr_range))<=abs(max) for u in range(tau))"],
+         "i.j.tau.k": ["crossij==cc(i,j,tau,k)"]},
+  checks=("bounds", "overflow", "divzero", "narrow"))
+
+K("_get_nearest_neighbors", "funcnet", props=("C10", "C20"),
+  requires=["dim>=1", "T>=1", "k>=0", "k<2147483646", "dim_x>=1", "dim_y>=1", "dim_x+dim_y<=dim",
+            "shape(array,0)==dim", "shape(array,1)==T"],
+  loops={"i": [], "i.while": ["0<=n and n<=T"], "i.while.t": ["0<=n and n<=t"], "i.while.t.while": ["0<=d and d<=dim"],
+         "i.j": ["n<=T"], "i.j.d": [], "i.j.while": ["-1<=m and m<=k"], "i.j#2": ["0<=kz and kz<=j and 0<=kxz and kxz<=j and 0<=kyz and kyz<=j"],
+         "i.j#2.d": [], "i.j#2.d#2": [], "i.j#2.d#3": []},
+  checks=("bounds", "overflow", "narrow", "divzero"))
+for _k in REG["_get_nearest_neighbors"][0].contract.loops:
+    REG["_get_nearest_neighbors"][0].contract.loops[_k] = REG["_get_nearest_neighbors"][0].contract.loops[_k] + \
+        ["all(0<=indexfound[q] and indexfound[q]<T for q in range(T))"]
